@@ -1,6 +1,7 @@
 SPECIFICATION SSpec
 CONSTANT L = 9
 CONSTANT Kind = "LR"
+CONSTANT LOBound = "asis"
 CONSTANT Depth = 13
 CONSTRAINT Emit
 CONSTRAINT Stop
